@@ -486,3 +486,49 @@ def chain_evaluate_contract(n: int) -> FunctionContract:
         callee_contracts={f"{M}:ConstraintChain.detect_conflicts": detect_contract, f"{M}:Constraint.evaluate": _virtual_evaluate},
         call=_call_method("evaluate"), timeout_ms=30000,
     )
+
+
+# ---- _parse_atom: the parameter reader of CONST / ENUM / RANGE / MIN / MAX_LENGTH chain texts -----------------------------------
+def _atom_posts():
+    def stripped(a):
+        s = a.s
+        return V.str_strip(s) if symbolic(s) else s.strip()
+
+    def no_float_syntax_means_int_or_the_word(a, r):
+        """a bare parameter without a decimal point or exponent letter is an integer or the word itself - never a float
+        (INF / NaN / Infinity are enum words, not numbers) - unless it is quoted or one of true / false / null"""
+        s = stripped(a)
+        if symbolic(s) or symbolic(r):
+            s = s if V.is_z3(s) else z3.StringVal(s)
+            q = z3.Or(z3.And(z3.PrefixOf(z3.StringVal('"'), s), z3.SuffixOf(z3.StringVal('"'), s)), z3.And(z3.PrefixOf(z3.StringVal("'"), s), z3.SuffixOf(z3.StringVal("'"), s)))
+            lit = z3.Or(s == z3.StringVal("true"), s == z3.StringVal("false"), s == z3.StringVal("null"))
+            nofloat = z3.And(z3.Not(z3.Contains(s, z3.StringVal("."))), z3.Not(z3.Contains(V.str_lower(s), z3.StringVal("e"))))
+            if V.is_z3(r) and r.sort() == z3.IntSort():
+                cons = True
+            elif V.is_z3(r) and r.sort() == z3.StringSort():
+                cons = r == s
+            elif V.is_z3(r) and r.sort() == V.Val:
+                cons = Or(is_int(r), And(is_str(r), str_val(r) == s))
+            elif V.is_z3(r):
+                cons = False  # a real / float term
+            elif isinstance(r, bool) or r is None or isinstance(r, float):
+                cons = False
+            elif isinstance(r, int):
+                cons = True
+            elif isinstance(r, str):
+                cons = s == z3.StringVal(r)
+            else:
+                cons = False
+            return Implies(And(z3.Not(q), z3.Not(lit), nofloat), cons)
+        quoted = (s.startswith('"') and s.endswith('"')) or (s.startswith("'") and s.endswith("'"))
+        if quoted or s in ("true", "false", "null") or "." in s or "e" in s.lower():
+            return True
+        return (isinstance(r, int) and not isinstance(r, bool)) or (isinstance(r, str) and r == s)
+
+    return {"no_float_syntax_means_int_or_the_word": no_float_syntax_means_int_or_the_word}
+
+
+PARSE_ATOM = FunctionContract(
+    M, "_parse_atom", {"s": Str()}, _atom_posts(), raises=(),
+    replay_hints=[(lambda t=t: {"s": t}) for t in ("INF", "inf", "NaN", "NAN", "nan", "Infinity", "-inf", "+Infinity", " INF ", "WARN", "42", "-5", "1_000", "٣")],
+)
